@@ -306,7 +306,7 @@ def oracle_boundary(sh, kreq, pts, stats):
     else:
         arcs = [(pts, None, 'curve')]
     for arc, rad, nm in arcs:
-        prev_b = None
+        prev_b, prev_tol = None, 0.0
         for j, pt in enumerate(arc):
             i = k - j
             b_sched, d_sched, _ = schedule(sh, k, i)
@@ -328,10 +328,11 @@ def oracle_boundary(sh, kreq, pts, stats):
                 want_step = (schedule(sh, k, i + 1)[0] - b_sched) % 360
                 # strict order is demanded only where the schedule step exceeds what 2 cm (and the 1e-7 deg
                 # rounding) can blur; below that consecutive points may coincide
-                if want_step > 1e-9 and want_step < 180 and not (abs(step - want_step) < 2 * tol_b + 1e-9
-                                                                 and (step > 0 or want_step <= 2 * tol_b)):
+                tol_s = tol_b + prev_tol + 1e-9
+                if want_step > 1e-9 and want_step < 180 and not (abs(step - want_step) < tol_s
+                                                                 and (step > 0 or want_step <= tol_s)):
                     bad.append(('pts_angular_order', f'{nm} points {j - 1},{j}: bearing step {step!r}, schedule {want_step!r}'))
-            prev_b = beta
+            prev_b, prev_tol = beta, tol_b
         if not wedge and cdiff(arc[0][0], arc[-1][0]) * math.cos(math.radians(arc[0][1])) > 2e-7 or \
                 (not wedge and abs(arc[0][1] - arc[-1][1]) > 2e-7):
             bad.append(('first_last', f'first point {arc[0]!r} differs from last {arc[-1]!r}'))
